@@ -56,7 +56,13 @@ def run(prop, tier, cfg):
         for t in cfg['tests']:
             if t['name'] not in names:
                 continue
+            # with --nocapture the "... ok" of one test can be separated from its "test <name> ..." by another thread's output:
+            # a test counts as run when its start line is there and the harness printed its summary; it failed when the summary's
+            # failure list (or an unbroken "... FAILED") names it
             m = re.search(r'test [\w:]*%s \.\.\. (ok|FAILED)' % re.escape(t['name']), txt)
+            if not m and re.search(r'test [\w:]*%s \.\.\.' % re.escape(t['name']), txt) and re.search(r'^test result: ', txt, re.M):
+                failed = re.search(r'^    [\w:]*%s$' % re.escape(t['name']), txt, re.M)
+                m = re.match('(FAILED)', 'FAILED') if failed else re.match('(ok)', 'ok')
             cases = re.search(r'VP-NATIVE %s(?:_contract|_spec|_model)? cases=(\d+)' % re.escape(re.sub(r'(_contract|_spec|_model)$', '', t['name'].replace('vp_native_', ''))), txt)
             rec = {'harness': t['name'], 'bound': t.get('bound', ''), 'result': 'ERROR', 'cases': int(cases.group(1)) if cases else None,
                    'back_end': 'native execution of the real code'}
